@@ -38,7 +38,19 @@ func (o c14op) String() string {
 const c14Marker = "HANDLERMARKbytes"
 
 func c14Ops() []c14op {
-	return []c14op{{"hdr-ct", 0}, {"hdr-req", 0}, {"status", 200}, {"status", 201}, {"status", 500}, {"status", 404}, {"write-valid", 0}, {"write-invalid", 0}, {"flush", 0}}
+	return []c14op{{"hdr-ct", 0}, {"hdr-req", 0}, {"status", 200}, {"status", 201}, {"status", 500}, {"status", 404}, {"write-valid", 0}, {"write-invalid", 0}, {"flush", 0}, {"ctx-cancel", 0}}
+}
+
+// c14cancel: the request's context carries the means to end it, so that a script step can end the context while the handler
+// runs (a deadline put on the request by an outer layer, a server shutting down); the writer stays usable.
+type c14cancelKey struct{}
+type c14cancel struct{ f context.CancelFunc }
+
+func c14WithCancel(r *http.Request) *http.Request {
+	h := &c14cancel{}
+	ctx, cancel := context.WithCancel(context.WithValue(r.Context(), c14cancelKey{}, h))
+	h.f = cancel
+	return r.WithContext(ctx)
 }
 
 func c14Handler(script []c14op, calls *int) http.Handler {
@@ -59,6 +71,10 @@ func c14Handler(script []c14op, calls *int) http.Handler {
 			case "flush":
 				if f, ok := w.(http.Flusher); ok {
 					f.Flush()
+				}
+			case "ctx-cancel":
+				if h, ok := r.Context().Value(c14cancelKey{}).(*c14cancel); ok {
+					h.f()
 				}
 			}
 		}
@@ -103,14 +119,18 @@ type c14Witness struct {
 func init() {
 	core.Register(&core.Check{
 		ID:   "C14",
-		Rule: "all handler scripts of length 0..4 (quick; 0..6 in the thorough tier: 597,871 scripts) over 9 operations {set Content-Type, set required X-Req, WriteHeader(200|201|500|404), Write(valid JSON chunk), Write(schema-violating chunk), Flush} (7381 scripts) x request classes {valid, invalid parameter, unrouted path, undeclared method} x strict on/off x default/custom OnErr+OnLog callbacks, through Validator.Middleware over the gorillamux router (one Validator and wrapped handler per configuration serve all cases in sequence; handlers write through a scratch buffer they overwrite after each Write); plus the request gate of ValidationHandler (legacy router, file-loaded document). For every case the bare handler is run against the same kind of recorder (differential oracle), ValidateResponse on the bare result defines response validity, the handler invocation count is recorded. Distinct = (script, request class, strict, callbacks, wrapper); all are non-trivial (the empty script included). A second path /f/{name} is requested as /f/a%2Fb (routed) and then /f/a/b (declared nowhere) through the same Validator.",
+		Rule: "all handler scripts of length 0..4 (quick; 0..6 in the thorough tier: 1,111,111 scripts) over 10 operations {set Content-Type, set required X-Req, WriteHeader(200|201|500|404), Write(valid JSON chunk), Write(schema-violating chunk), Flush, end the request's context} (11111 scripts) x request classes {valid, invalid parameter, unrouted path, undeclared method} x strict on/off x default/custom OnErr+OnLog callbacks, through Validator.Middleware over the gorillamux router (one Validator and wrapped handler per configuration serve all cases in sequence; handlers write through a scratch buffer they overwrite after each Write); plus the request gate of ValidationHandler (legacy router, file-loaded document). For every case the bare handler is run against the same kind of recorder (differential oracle), ValidateResponse on the bare result defines response validity, the handler invocation count is recorded. Distinct = (script, request class, strict, callbacks, wrapper); all are non-trivial (the empty script included). A second path /f/{name} is requested as /f/a%2Fb (routed) and then /f/a/b (declared nowhere) through the same Validator. Generated-documents layer: PRNG-drawn documents of the C10 generator (parameters at both levels, bodies, document-level and operation-level security, servers) and 5 directed documents (operations declaring nothing under a document-level requirement, security switched off, own requirement, path-level parameters only, body only) x generated/directed requests x 4 authentication callbacks (none, accept, deny, key check) x strict on/off x both routers: router.FindRoute + ValidateRequest on an equal request define 'routed and valid', the handler must run exactly then, 404/400 otherwise; ValidateResponse on what the handler wrote defines response validity.",
 		Assumptions: []string{
 			"client transcript = what an httptest.ResponseRecorder observes (effective status = first WriteHeader else 200 at first Write or at the end; body = concatenated writes)",
 			"response headers set by the handler are not covered by the statement (only status code and body bytes)",
 		},
 		Shards:     func(string) int { return 16 },
 		Exhaustive: func(string) bool { return true },
-		Run:        runC14,
+		Floors: func(string) map[string]int {
+			return map[string]int{"generated_gate/valid-request": 500, "generated_gate/invalid-request": 500, "generated_gate/invalid-request-security": 300, "generated_gate/unrouted": 500,
+				"generated_response/strict=true/valid=false": 50, "generated_response/strict=true/valid=true": 50}
+		},
+		Run: runC14,
 	})
 }
 
@@ -184,6 +204,7 @@ func runC14(c *core.Ctx) {
 		}
 	}
 	c14Server(c, router)
+	c14Generated(c)
 	if c.Shard == 0 {
 		c14ValidationHandler(c)
 	}
@@ -228,7 +249,7 @@ func c14Case(c *core.Ctx, router routers.Router, script []c14op, cls c14reqClass
 	// bare handler
 	bareCalls := 0
 	bare := httptest.NewRecorder()
-	breq := httptest.NewRequest(cls.method, cls.target, nil)
+	breq := c14WithCancel(httptest.NewRequest(cls.method, cls.target, nil))
 	if pi := core.Guard(func() { c14Handler(script, &bareCalls).ServeHTTP(bare, breq) }); pi != nil {
 		return // the script itself is not a legal handler for the recorder (cannot happen with these ops)
 	}
@@ -268,7 +289,7 @@ func c14Case(c *core.Ctx, router routers.Router, script []c14op, cls c14reqClass
 	}
 	live.script, live.calls, live.logCalls, live.errCalls = script, 0, 0, nil
 	rec := httptest.NewRecorder()
-	req := httptest.NewRequest(cls.method, cls.target, nil)
+	req := c14WithCancel(httptest.NewRequest(cls.method, cls.target, nil))
 	c.Eval()
 	mk := func(got, want string) c14Witness {
 		return c14Witness{Script: scriptNames(script), Request: cls.method + " " + cls.target, Strict: strict, Custom: custom, Wrapper: "Validator.Middleware", Got: got, Want: want, HandlerN: live.calls}
